@@ -112,6 +112,13 @@ CLAIMED.update({
    note="'Never reads outside the response' is covered through Rust's bounds checks (an out-of-range slice is a panic, reported here) plus the view-extent oracle of C01; no separate canary is placed behind the datagram. Known finding: the two SDO information entry points do not end under endless non-final replies."),
 })
 
+CLAIMED.update({
+ "C17": dict(engine="simnet", category="exploration", design_ref="§5 C17",
+   technique="property-based testing on generated trees of simulated devices with a symmetric link-delay model (ground truth = the simulator's frame arrival times), plus a metamorphic relation (one link made slower) and injected arbitrary link / port-time reports; oracle = DC registers 0x0920/0x0928 after init, propagation_delay(), FRMW targets",
+   text="Trees of 1..24 devices (chains, forks, crosses, nested), link delays 10..2000 ns, DC none/ref-only/32/64 bit mixed, arbitrary clock offsets, devices whose 32 bit port time wraps while the frame is in their subtree, arbitrary master time. Checked: offset register == master time - latched receive time; delays never decrease in processing order; on pure chains delay == arrival time difference to the first DC device; in trees delay >= nearest DC ancestor's; the first DC device is the FRMW target; making one link slower does not change delays of devices the frame reaches earlier and (all-DC networks) moves that device's delay by exactly the same amount; a device that reports no link at all, or reports that leave more devices than downstream ports, end in an error; arbitrary link bits / port times never panic.",
+   note="Reports with port 0 closed are not judged as impossible (the code supports other entry ports). Exact delays in trees are recorded, not asserted (the statement claims exactness for chains only). Known findings: non-DC device between DC devices on a chain; children of a cross junction."),
+})
+
 NOT_YET = {}
 
 ALL = [f"C{i:02d}" for i in range(1,21)]
@@ -147,7 +154,7 @@ def main():
         {"name":"pdusim","path":"harness/vlib","serves_properties":[p for p in CLAIMED if CLAIMED[p]["engine"]=="pdusim"],"kind_free_text":"PDU-loop harness: real frame builder / TX / RX driven op by op under a virtual clock, reference frame encoder, slot snapshots through verif-hooks"},
         {"name":"sii","path":"harness/vlib/src/sii.rs","serves_properties":["C12","C13","C14"],"kind_free_text":"independent SII EEPROM encoder + in-memory EepromDataProvider (4/8 byte chunks, read budget), driven through the verif-hooks SiiQueries facade"},
         {"name":"wiregen","path":"harness/vlib/src/wiregen.rs","serves_properties":["C19"],"kind_free_text":"derive-program generator, Rust source emitter, request/response executor, bit-level reference packer"},
-        {"name":"simnet","path":"harness/vlib/src/simnet.rs","serves_properties":["C07","C08","C09","C10","C11","C15","C16"],"kind_free_text":"simulated EtherCAT segment: frame walk over ESC register/SII/SM/FMMU/AL/mailbox(CoE)/DC models, deterministic executor under the virtual clock, coherent device generator"},
+        {"name":"simnet","path":"harness/vlib/src/simnet.rs","serves_properties":["C07","C08","C09","C10","C11","C15","C16","C17"],"kind_free_text":"simulated EtherCAT segment: frame walk over ESC register/SII/SM/FMMU/AL/mailbox(CoE)/DC models, deterministic executor under the virtual clock, coherent device generator"},
         {"name":"a2","path":"harness/vlib/src/a2.rs","serves_properties":["C01","C02","C06"],"kind_free_text":"yield-level scheduler: parties as ucontext coroutines on one thread, baton handed over at every verif-hooks point, schedules generated (random/PCT) or enumerated (pre-emption bounded), ownership monitor"},
       ],
       "checks":checks,
